@@ -71,6 +71,109 @@ theorem parse_materialize_git (diffFn : DiffFn) (n len : Nat) (hs : List (List B
       fun hall => nodiff_renders_noeol diffFn .git rfl len hwf.len_pos eol he labels hl h
         (fun _ => h3) hodd hc hall ci nc⟩
 
+/-- Extra requirement of the two diff styles: `len ≥ 2` and no line of an unresolved hunk becomes a
+marker when one of the diff prefixes `' '`, `'-'`, `'+'` is put in front of it (decidable). -/
+structure DiffWF (len : Nat) (hs : List (List Bytes)) : Prop where
+  len_two : 2 ≤ len
+  safe : ∀ h ∈ hs, h.length ≠ 1 → ∀ c ∈ h, DiffSafe len c
+
+instance (len : Nat) (hs : List (List Bytes)) : Decidable (DiffWF len hs) :=
+  decidable_of_iff (2 ≤ len ∧ ∀ h ∈ hs, h.length ≠ 1 → ∀ c ∈ h, DiffSafe len c)
+    ⟨fun ⟨a, b⟩ => ⟨a, b⟩, fun ⟨a, b⟩ => ⟨a, b⟩⟩
+
+/-- **(d) Diff and DiffExperimental styles**, relative to the assumption `DiffFnOK` about the line
+diff the materializer runs internally (`ContentDiff::by_line`, C03's subject): it reconstructs
+both inputs, matching groups are equal, groups are whole lines.  Which side becomes the snapshot
+(the `diff_size` heuristic) does not matter for the round trip. -/
+theorem parse_materialize_diff (diffFn : DiffFn) (hdf : DiffFnOK diffFn) (style : Style)
+    (hstyle : style = .diff ∨ style = .diffExperimental) (n len : Nat) (hs : List (List Bytes))
+    (labels : List Bytes) (eol : Bytes) (hwf : HunksWF n len hs) (hdw : DiffWF len hs)
+    (hl : LabelsOK labels) (he : IsEol eol) :
+    parseConflict (materializeHunks diffFn hs style len labels eol) n len = some hs := by
+  have hsd : style.allowsDiff = true := by rcases hstyle with rfl | rfl <;> rfl
+  refine parse_materialize_of_render diffFn style n len hwf.len_pos labels eol he hs ?_
+    hwf.hunks hwf.has_conflict
+  intro h hh hne ci nc
+  obtain ⟨hodd, hc⟩ := conflict_of_wf hwf.hunks h hh hne
+  have hd := hdw.safe h hh hne
+  exact ⟨fun hall => diff_renders_eol diffFn hdf style hsd len hwf.len_pos eol he labels hl h hodd hc hd
+      hall ci nc,
+    fun hall => diff_renders_noeol diffFn hdf style hsd len hdw.len_two eol he labels hl h hodd hc hd
+      hall ci nc⟩
+
+/-- every style at once -/
+theorem parse_materialize (diffFn : DiffFn) (hdf : DiffFnOK diffFn) (style : Style) (n len : Nat)
+    (hs : List (List Bytes)) (labels : List Bytes) (eol : Bytes) (hwf : HunksWF n len hs)
+    (hdw : DiffWF len hs) (hl : LabelsOK labels) (he : IsEol eol) :
+    parseConflict (materializeHunks diffFn hs style len labels eol) n len = some hs := by
+  cases style with
+  | diff => exact parse_materialize_diff diffFn hdf .diff (Or.inl rfl) n len hs labels eol hwf hdw hl he
+  | diffExperimental =>
+    exact parse_materialize_diff diffFn hdf .diffExperimental (Or.inr rfl) n len hs labels eol hwf hdw hl he
+  | snapshot => exact parse_materialize_snapshot diffFn n len hs labels eol hwf hl he
+  | git => exact parse_materialize_git diffFn n len hs labels eol hwf hl he
+
+/-! ### (c) the marker length chosen by `choose_materialized_conflict_marker_len`
+
+These use the constants generated from the source (`MIN_CONFLICT_MARKER_LEN`,
+`CONFLICT_MARKER_LEN_INCREMENT`): with an increment of 1 `marker_len_protects_diff_lines` fails. -/
+
+/-- the chosen length is strictly greater than every marker-like run in the files, by the
+increment of the source, and at least the minimum length -/
+theorem marker_len_exceeds_existing (files : List Bytes) (f l : Bytes) (hf : f ∈ files)
+    (hl : l ∈ linesWT f) (k : MarkerKind) (m : Nat) (hm : parseMarkerAnyLen l = some (k, m)) :
+    m + CONFLICT_MARKER_LEN_INCREMENT ≤ chooseMarkerLen files ∧
+      MIN_CONFLICT_MARKER_LEN ≤ chooseMarkerLen files := by
+  have h1 := markerLen_le_max hf hl hm
+  have h2 := chooseMarkerLen_gt files
+  exact ⟨by omega, h2.2⟩
+
+/-- hence no line of the inputs can be mistaken for a marker of the chosen length … -/
+theorem marker_len_protects_lines (files : List Bytes) (f : Bytes) (hf : f ∈ files) :
+    ContentOK (chooseMarkerLen files) f := chooseMarkerLen_safe files f hf
+
+/-- … not even with a diff prefix byte in front (needs `INCREMENT ≥ 2` and `MIN ≥ 2`) -/
+theorem marker_len_protects_diff_lines (files : List Bytes) (f : Bytes) (hf : f ∈ files) :
+    DiffSafe (chooseMarkerLen files) f := chooseMarkerLen_diffSafe files f hf
+
+/-- every line of every term of `hs` is a line of one of the `files` (what line-level merging
+guarantees; C04's subject, checked by the harness on every case through `C05 wf`) -/
+def LinesFrom (files : List Bytes) (hs : List (List Bytes)) : Prop :=
+  ∀ h ∈ hs, ∀ c ∈ h, ∀ l ∈ linesWT c, ∃ f ∈ files, l ∈ linesWT f
+
+theorem contentOK_of_linesFrom {files : List Bytes} {hs : List (List Bytes)} (hlf : LinesFrom files hs)
+    {h : List Bytes} (hh : h ∈ hs) {c : Bytes} (hc : c ∈ h) :
+    ContentOK (chooseMarkerLen files) c ∧ DiffSafe (chooseMarkerLen files) c := by
+  constructor
+  · intro l hl; obtain ⟨f, hf, hlf'⟩ := hlf h hh c hc l hl
+    exact chooseMarkerLen_safe files f hf l hlf'
+  · intro l hl; obtain ⟨f, hf, hlf'⟩ := hlf h hh c hc l hl
+    exact chooseMarkerLen_diffSafe files f hf l hlf'
+
+/-- `DiffWF` comes for free with the chosen marker length -/
+theorem diffWF_of_linesFrom {files : List Bytes} {hs : List (List Bytes)} (hlf : LinesFrom files hs) :
+    DiffWF (chooseMarkerLen files) hs :=
+  ⟨by have := (chooseMarkerLen_gt files).2; have := min_len_ge_two; omega,
+   fun _ hh _ _ hc => (contentOK_of_linesFrom hlf hh hc).2⟩
+
+theorem detectEol_isEol (files : List Bytes) : IsEol (detectEol files) := by
+  unfold detectEol; split
+  · exact Or.inr rfl
+  · exact Or.inl rfl
+
+/-- **End to end** for `materialize_merge_result_to_bytes` with `marker_len = None`: if the hunks
+(the result of `files::merge_hunks`) are well formed and made of lines of the files, the text
+parses back to them, for every style.
+`_partial`: `HunksWF`/`LinesFrom` are *hypotheses* about `merge_hunks` (C04, not modelled here; the
+harness evaluates both on every real `merge_hunks` output) and `DiffFnOK` about the line diff (C03). -/
+theorem roundtrip_end_to_end_partial (diffFn : DiffFn) (hdf : DiffFnOK diffFn) (style : Style)
+    (files : List Bytes) (n : Nat) (hs : List (List Bytes)) (labels : List Bytes)
+    (hwf : HunksWF n (chooseMarkerLen files) hs) (hlf : LinesFrom files hs) (hl : LabelsOK labels) :
+    parseConflict (materializeToBytes diffFn files hs style none (labelsFromVec labels)) n
+      (chooseMarkerLen files) = some hs :=
+  parse_materialize diffFn hdf style n _ hs _ _ hwf (diffWF_of_linesFrom hlf) (LabelsOK_fromVec hl)
+    (detectEol_isEol files)
+
 /-- non-vacuity: a 2-sided conflict between resolved context, the last side lacking the final EOL,
 with a short marker look-alike in the content -/
 example : HunksWF 2 7 [[[97, 10]], [[98, 10], [60, 60, 60, 10], []], [[99, 10]], [[100], [], [101, 10]]] := by
